@@ -939,7 +939,7 @@ impl<const N: usize> Exec<N> {
 
     /// A script with two variables (see Step::Script2). Only the allocator clauses of C05 are judged.
     #[allow(clippy::too_many_arguments)]
-    pub(crate) fn do_script2(&mut self, i: usize, p: Id, l1: &PLabel, l2: &PLabel, na: &str, nb: &str, s: &Step) -> Result<Applied, Failure> {
+    pub(crate) fn do_script2(&mut self, i: usize, p: Id, l1: &PLabel, l2: &PLabel, na: &str, nb: &str, twice: bool, s: &Step) -> Result<Applied, Failure> {
         let Some(p) = self.id(p) else { return Ok(Applied::Skipped) };
         if !self.targetable(i) || !self.view.followers(i).is_empty() || na.is_empty() || nb.is_empty() || na == nb {
             return Ok(Applied::Skipped);
@@ -978,15 +978,30 @@ impl<const N: usize> Exec<N> {
         self.view.see_label(&q1);
         self.view.see_label(&q2);
         let g = self.gs[i].as_mut().unwrap();
-        let r = guarded(|| Script::from_str(&text).deploy_to(g));
-        match r {
-            Ok(Ok(_)) => {}
-            Ok(Err(_)) => {
+        let r = guarded(|| {
+            let mut sc = Script::from_str(&text);
+            let first = sc.deploy_to(g);
+            if twice && first.is_ok() {
+                // the variables are bound by now: the second deployment changes nothing
+                let keys = g.keys();
+                let second = sc.deploy_to(g);
+                return (first, Some((second.is_ok(), keys, g.keys())));
+            }
+            (first, None)
+        });
+        let again = match r {
+            Ok((Ok(_), again)) => again,
+            Ok((Err(_), _)) => {
                 self.stats.bump("script.err");
                 self.view.insts[i].as_mut().unwrap().poisoned = true;
                 return Ok(Applied::Done);
             }
             Err(c) => return fail("panic.in-contract-call", clauses::PANIC_NEXT, format!("script {text:?} panicked: {c:?}")),
+        };
+        if let Some((ok, before, after)) = again {
+            self.stats.bump("script.deployed_twice");
+            // whatever the second deployment did goes into the replica trace (C19); translation is C14's
+            self.rec(|| format!("script deployed twice: ok={ok} keys {before:?} -> {after:?}"));
         }
         self.stats.bump("script.two_variables_deployed");
         let probes = self.view.probe_labels();
